@@ -7,6 +7,7 @@ import Tw.Proofs.ConnSafety7
 import Tw.Proofs.Conn6
 import Tw.Proofs.Conn7
 import Tw.Proofs.RsConn
+import Tw.Proofs.RsConn7
 
 /-!
 # C01 — vital chunks are delivered exactly once, in order, uncorrupted
@@ -196,5 +197,25 @@ theorem tie_rs_seq_update (a b : Tw.Gen.RsConn.Sequence) (h : a.seq < 65535) :
   Tw.RsConn.seq_update_eq a b h
 
 example : (⟨1023⟩ : Tw.Gen.RsConn.Sequence).seq < 65535 := by decide
+
+/-! The same for the 0.7 twin, `Sequence` of `net/src/connection7.rs` (`Tw.Gen.RsConn7.*`). -/
+
+theorem tie_rs7_seq_from_u16 (s : Nat) :
+    (s < seqMod → Tw.Gen.RsConn7.Sequence.from_u16 s = .ok ⟨s⟩) ∧
+    (seqMod ≤ s → ∃ p, Tw.Gen.RsConn7.Sequence.from_u16 s = .error p) :=
+  ⟨Tw.RsConn7.seq_from_u16_eq s, Tw.RsConn7.seq_from_u16_panics s⟩
+
+theorem tie_rs7_seq_next (s : Tw.Gen.RsConn7.Sequence) (h : s.seq < 65535) :
+    Tw.Gen.RsConn7.Sequence.next s = .ok (⟨seqNext s.seq⟩, ⟨seqNext s.seq⟩) :=
+  Tw.RsConn7.seq_next_eq s h
+
+theorem tie_rs7_seq_compare (a b : Tw.Gen.RsConn7.Sequence) :
+    Tw.Gen.RsConn7.Sequence.compare a b = .ok (Tw.RsConn7.ordMap (seqCompare a.seq b.seq)) :=
+  Tw.RsConn7.seq_compare_eq a b
+
+theorem tie_rs7_seq_update (a b : Tw.Gen.RsConn7.Sequence) (h : a.seq < 65535) :
+    Tw.Gen.RsConn7.Sequence.update a b =
+      .ok (Tw.RsConn7.ordMap (seqUpdate a.seq b.seq).2, ⟨(seqUpdate a.seq b.seq).1⟩) :=
+  Tw.RsConn7.seq_update_eq a b h
 
 end Tw.Props.C01
